@@ -102,98 +102,116 @@ def run(ctx):
     ctx.build_harness()
     ctx.build_harness(release=True)
     rng = ctx.rng
-    cases = []     # dicts: tag, xml, calls, where, predicted (index into model answers or None), lenient
     pc = predicted_cases()
     model = ctx.run_model(HEADER, [c[4] for c in pc], shard_size=max(8, len(pc) // 16 + 1), tag='p')
-    for (label, xml, inv, inputs, _, lenient), m in zip(pc, model):
-        cases.append({'tag': 'predicted', 'label': label, 'xml': xml, 'calls': [[n, c] for n in inv for c in G.ctx_texts(inputs)], 'model': m.name if isinstance(m, App) else str(m), 'lenient': lenient})
-    for label, xml, inv, inputs in G.generated_models():
-        cases.append({'tag': 'generated', 'label': label, 'xml': xml, 'calls': [[n, c] for n in inv for c in G.ctx_texts(inputs)]})
     files = G.example_files(core.REPO)
-    allsites, trees = [], {}
-    for f in files:
-        text = open(f, encoding='utf-8', errors='replace').read()
-        pr = G.parse(text)
-        inv, inputs = G.invocables(pr[0]) if pr else ([], [])
-        cases.append({'tag': 'example', 'label': f[len(core.REPO):], 'xml': text, 'calls': [[n, c] for n in inv for c in G.ctx_texts(inputs)]})
-        if pr is None:
-            continue
-        trees[f] = pr
-        for s in G.positions(pr[0]):
-            for fl in G.faults_of(s):
-                allsites.append((f, s, fl))
-    n_sites = len(allsites)
-    budget = ctx.pick(6000, 10 ** 9)
-    chosen = allsites if len(allsites) <= budget else rng.sample(allsites, budget)
-    fault_hist = {}
-    for f, s, fl in chosen:
-        root, ns = trees[f]
-        r = G.apply_fault(root, s, fl)
-        if r is None:
-            continue
-        inv, inputs = G.invocables(r)
-        key = '%s:%s' % (s[0], fl)
-        fault_hist[key] = fault_hist.get(key, 0) + 1
-        cases.append({'tag': 'fault', 'label': '%s %s at node %d%s of %s' % (fl, s[0], s[1], (' ' + s[2]) if len(s) > 2 else '', f[len(core.REPO):]),
-                      'xml': G.serialize(r, ns), 'calls': [[n, c] for n in inv[:6] for c in G.ctx_texts(inputs)[:2]]})
-    if not ctx.quick:
-        for _ in range(20000):     # pairs of faults
-            f = rng.choice(list(trees))
+    stats = {'n_sites': 0, 'n_faults': 0, 'fault_hist': {}, 'classes': {}, 'first_fault': None}
+
+    def produce():
+        for (label, xml, inv, inputs, _, lenient), m in zip(pc, model):
+            yield {'tag': 'predicted', 'label': label, 'xml': xml, 'calls': [[n, c] for n in inv for c in G.ctx_texts(inputs)], 'model': m.name if isinstance(m, App) else str(m), 'lenient': lenient}
+        for label, xml, inv, inputs in G.generated_models():
+            yield {'tag': 'generated', 'label': label, 'xml': xml, 'calls': [[n, c] for n in inv for c in G.ctx_texts(inputs)]}
+        allsites, trees = [], {}
+        for f in files:
+            text = open(f, encoding='utf-8', errors='replace').read()
+            pr = G.parse(text)
+            inv, inputs = G.invocables(pr[0]) if pr else ([], [])
+            yield {'tag': 'example', 'label': f[len(core.REPO):], 'xml': text, 'calls': [[n, c] for n in inv for c in G.ctx_texts(inputs)]}
+            if pr is None:
+                continue
+            trees[f] = pr
+            for s in G.positions(pr[0]):
+                for fl in G.faults_of(s):
+                    allsites.append((f, s, fl))
+        stats['n_sites'] = len(allsites)
+        budget = ctx.pick(6000, 10 ** 9)
+        chosen = allsites if len(allsites) <= budget else rng.sample(allsites, budget)
+        for f, s, fl in chosen:
             root, ns = trees[f]
-            sites = G.positions(root)
-            s1 = rng.choice(sites)
-            r = G.apply_fault(root, s1, rng.choice(G.faults_of(s1)))
+            r = G.apply_fault(root, s, fl)
             if r is None:
                 continue
-            sites2 = G.positions(r)
-            if not sites2:
-                continue
-            s2 = rng.choice(sites2)
-            r2 = G.apply_fault(r, s2, rng.choice(G.faults_of(s2)))
-            if r2 is None:
-                continue
-            inv, inputs = G.invocables(r2)
-            cases.append({'tag': 'fault-pair', 'label': 'two faults in %s' % f[len(core.REPO):], 'xml': G.serialize(r2, ns), 'calls': [[n, c] for n in inv[:6] for c in G.ctx_texts(inputs)[:2]]})
-    for _ in range(ctx.pick(3000, 60000)):
-        f = rng.choice(files)
-        text = open(f, encoding='utf-8', errors='replace').read()
-        pr = trees.get(f)
-        inv = G.invocables(pr[0])[0] if pr else []
-        cases.append({'tag': 'bytes', 'label': 'byte corruption of %s' % f[len(core.REPO):], 'xml': G.corrupt_bytes(rng, text), 'calls': [[n, '{}'] for n in inv[:4]]})
-    reqs = [{'xml': c['xml'], 'calls': c['calls']} for c in cases]
-    classes = {}
-    for rel in (False, True):
-        impl = ctx.run_impl(GUARD % LIMIT_MS, reqs, release=rel, shards=8)
-        if len(impl) != len(cases):
-            ctx.broken.append('fault injection: %d answers for %d requests' % (len(impl), len(cases)))
-        for c, rq, r in zip(cases, reqs, impl):
-            ctx.evaluations += 1
-            r = settle(ctx, rq, r, rel)
-            bad = verdict(r)
-            build = 'release' if rel else 'debug'
-            if bad:
-                ctx.violation('%s (%s build): %s — %s' % (c['tag'], build, c['label'], bad), {'xml': c['xml'], 'calls': c['calls'], 'build': build, 'what': c['label']}, impl=r)
-                continue
-            ctx.corr_checked += 1
-            k = '%s: parse %s, build %s' % (c['tag'], r['parse'], r['build'])
-            classes[k] = classes.get(k, 0) + 1
-            if r['build'] == 'ok' and c['tag'] != 'example':
-                ctx.nontrivial.add(c['label'])
-            if c['tag'] == 'predicted' and r['parse'] == 'ok':
-                want = {'Ok': 'ok', 'Err': 'err'}.get(c['model'])
-                if want is None:
-                    ctx.broken.append('model predicts %s for %s' % (c['model'], c['label']))
-                elif r['build'] != want and not (c['lenient'] and r['build'] == 'err'):
-                    ctx.corr_broken('outcome class of ModelEvaluator::new', {'model_xml': c['label'], 'build': build}, {'build': r['build'], 'msg': r.get('build_msg', '')[:200]}, c['model'])
+            inv, inputs = G.invocables(r)
+            key = '%s:%s' % (s[0], fl)
+            stats['fault_hist'][key] = stats['fault_hist'].get(key, 0) + 1
+            stats['n_faults'] += 1
+            label = '%s %s at node %d%s of %s' % (fl, s[0], s[1], (' ' + s[2]) if len(s) > 2 else '', f[len(core.REPO):])
+            stats['first_fault'] = stats['first_fault'] or label
+            yield {'tag': 'fault', 'label': label, 'xml': G.serialize(r, ns), 'calls': [[n, c] for n in inv[:6] for c in G.ctx_texts(inputs)[:2]]}
+        if not ctx.quick:
+            for _ in range(20000):     # pairs of faults
+                f = rng.choice(list(trees))
+                root, ns = trees[f]
+                sites = G.positions(root)
+                s1 = rng.choice(sites)
+                r = G.apply_fault(root, s1, rng.choice(G.faults_of(s1)))
+                if r is None:
+                    continue
+                sites2 = G.positions(r)
+                if not sites2:
+                    continue
+                s2 = rng.choice(sites2)
+                r2 = G.apply_fault(r, s2, rng.choice(G.faults_of(s2)))
+                if r2 is None:
+                    continue
+                inv, inputs = G.invocables(r2)
+                yield {'tag': 'fault-pair', 'label': 'two faults in %s' % f[len(core.REPO):], 'xml': G.serialize(r2, ns), 'calls': [[n, c] for n in inv[:6] for c in G.ctx_texts(inputs)[:2]]}
+        for _ in range(ctx.pick(3000, 60000)):
+            f = rng.choice(files)
+            text = open(f, encoding='utf-8', errors='replace').read()
+            pr = trees.get(f)
+            inv = G.invocables(pr[0])[0] if pr else []
+            yield {'tag': 'bytes', 'label': 'byte corruption of %s' % f[len(core.REPO):], 'xml': G.corrupt_bytes(rng, text), 'calls': [[n, '{}'] for n in inv[:4]]}
+
+    def process(cases):
+        classes = stats['classes']
+        reqs = [{'xml': c['xml'], 'calls': c['calls']} for c in cases]
+        for rel in (False, True):
+            impl = ctx.run_impl(GUARD % LIMIT_MS, reqs, release=rel, shards=8)
+            if len(impl) != len(cases):
+                ctx.broken.append('fault injection: %d answers for %d requests' % (len(impl), len(cases)))
+            for c, rq, r in zip(cases, reqs, impl):
+                ctx.evaluations += 1
+                r = settle(ctx, rq, r, rel)
+                bad = verdict(r)
+                build = 'release' if rel else 'debug'
+                if bad:
+                    ctx.violation('%s (%s build): %s — %s' % (c['tag'], build, c['label'], bad), {'xml': c['xml'], 'calls': c['calls'], 'build': build, 'what': c['label']}, impl=r)
+                    continue
+                ctx.corr_checked += 1
+                k = '%s: parse %s, build %s' % (c['tag'], r['parse'], r['build'])
+                classes[k] = classes.get(k, 0) + 1
+                if r['build'] == 'ok' and c['tag'] != 'example':
+                    ctx.nontrivial.add(c['label'])
+                if c['tag'] == 'predicted' and r['parse'] == 'ok':
+                    want = {'Ok': 'ok', 'Err': 'err'}.get(c['model'])
+                    if want is None:
+                        ctx.broken.append('model predicts %s for %s' % (c['model'], c['label']))
+                    elif r['build'] != want and not (c['lenient'] and r['build'] == 'err'):
+                        ctx.corr_broken('outcome class of ModelEvaluator::new', {'model_xml': c['label'], 'build': build}, {'build': r['build'], 'msg': r.get('build_msg', '')[:200]}, c['model'])
+
+    batch = []
+    for c in produce():
+        batch.append(c)
+        if len(batch) >= 5000:
+            process(batch)
+            batch = []
+            if len(ctx.violations) >= 20:
+                ctx.notes.append('stopped after 20 failing inputs')
+                break
+    if batch:
+        process(batch)
+    n_sites, fault_hist, classes = stats['n_sites'], stats['fault_hist'], stats['classes']
     ctx.sample({'predicted': pc[3][0], 'model_term': pc[3][4]})
-    ctx.sample({'fault': next(c['label'] for c in cases if c['tag'] == 'fault')})
+    ctx.sample({'fault': stats['first_fault']})
     return ctx.finish(
         rule='generated models with a predicted outcome (requirement graphs: chains, diamond, self loop, 2- and 3-cycles, tail into a cycle, dangling reference — between decisions and between '
              'knowledge models; tables whose second rule has one entry less / more than the input or output clauses; item definitions referring to themselves directly, mutually and through '
              'components); every .dmn under examples/src unchanged; single structural faults at sampled (quick) or all (thorough) positions: delete / duplicate / empty / swap of every element, '
              'delete / empty / garble of every attribute and text node, every href retargeted to a missing element, its own element, an ancestor, or stripped of #; pairs of faults (thorough); '
              'random byte corruption.  Every invocable of the (faulted) model is evaluated with an empty context and with all inputs bound.  non-trivial = the faulted model still builds',
-        extra_cov={'exhaustive': False, 'builds': ['debug', 'release'], 'example_files': len(files), 'fault_sites_x_faults_available': n_sites, 'faults_run_per_build': len(chosen),
+        extra_cov={'exhaustive': False, 'builds': ['debug', 'release'], 'example_files': len(files), 'fault_sites_x_faults_available': n_sites, 'faults_run_per_build': stats['n_faults'],
                    'fault_histogram': fault_hist, 'outcome_classes(both builds)': classes, 'per_request': '8 MiB stack thread, catch_unwind per phase, %d ms limit, process death observed' % LIMIT_MS},
         assumptions=['a numbering of the nodes decreasing along requirements exists iff the requirement graph is acyclic (the theorems take the numbering as hypothesis)',
                      'the stack holds at least |nodes| frames of the builder recursion'],
